@@ -2299,6 +2299,12 @@ func (a *Authenticator) handleClientAuthentication(ctx context.Context, negotiat
 			break
 		}
 
+		// The server must pick one of the methods we offered; anything else
+		// (a method we never listed, several bits, an unknown bit) is not run.
+		if serverResponse&availableBitmask != serverResponse {
+			return fmt.Errorf("server selected authentication method bits 0x%x that were not offered (0x%x)", serverResponse, availableBitmask)
+		}
+
 		// Convert server response to method
 		selectedMethod := bitmaskToAuthMethod(serverResponse)
 		if selectedMethod == "" {
